@@ -24,12 +24,12 @@ ASSUMPTIONS = [
     'these diagonal patterns is c*T',
 ]
 OPEN_STATEMENTS = [
-    'jw_exact / jw_majorana_exact / jw_one_body_sound / jw_two_body_sound are proved under the decidable hypothesis "exact regime" '
+    'jw_exact / jw_majorana_exact / jw_one_body_sound / jw_two_body_sound / jw_interaction_op_sound are proved under the decidable hypothesis "exact regime" '
     '(no non-zero value deleted by the |v| < EQ_TOLERANCE test of +=); without it the statements are false by '
     'design of the library; the hypothesis is evaluated by the Model on every generated input and counted in the '
     'distribution (theorem-hypothesis exact-regime)',
-    'jw_interaction_op_sound, jw_dch_sound (the symmetrised-coefficient loops equal jw of the tensor formula): NOT '
-    'proved; correspondence + Spec oracle against the tensor formula + exact comparison with the FermionOperator path',
+    'jw_dch_sound (the DiagonalCoulombHamiltonian path denotes its docstring formula): NOT proved; correspondence + Spec '
+    'oracle against the formula + exact comparison with the FermionOperator path (jw_interaction_op_sound IS proved)',
     'reverse_jw_left_inverse (normal_ordered(reverse_jw(jw A)) = normal_ordered A): NOT proved; correspondence of the '
     'reverse transform + Spec oracle (the returned FermionOperator acts like the QubitOperator) + exact round trips',
     'linearity / multiplicativity / dagger-compatibility of jordan_wigner are consequences of jw_exact in the Spec '
@@ -433,7 +433,8 @@ def stream_tensors(ctx):
         jQ = enc_op('qubit', Q.terms)
         b.add('jordan_wigner(InteractionOperator)', case, jQ,
               {'op': 'c04.iop', 'n': n, 'constant': const, 'one': one, 'two': two},
-              oracle('fermion', n, ['iop', n, const, one, two], jQ))
+              oracle('fermion', n, ['iop', n, const, one, two], jQ),
+              regime_req={'op': 'c04.iop_ok', 'n': n, 'constant': const, 'one': one, 'two': two})
         ok, QF = call(st, 'jordan_wigner(get_fermion_operator(iop))', case,
                       lambda: jw(of.transforms.get_fermion_operator(iop)))
         if ok and canon_nz(jQ) != canon_nz(enc_op('qubit', QF.terms)):
